@@ -39,7 +39,7 @@ CONSTANTS
 VARIABLES
           \* @type: {ck: Str, cv: Int, pk: Str, pv: Int, ws: Int, we: Int, cm: Str};
           cfg,   \* the tracepoint's settings (never changes): [ck, cv, pk, pv, ws, we, cm]
-                 \*   ck/pk: "int" | "bad" | "absent" (fire_count / fire_period argument), cv/pv the value
+                 \*   ck/pk: "int" (text) | "num" (a number) | "bad" | "absent" (fire_count / fire_period argument), cv/pv the value
                  \*   ws/we: window start/end in ticks, 0 = unbounded on that side
                  \*   cm: "none" (no condition) | "blank" | "expr" (truth decided per hit)
           \* @type: Int;
@@ -63,8 +63,8 @@ VARIABLES
 
 vars == <<cfg, now, count, last, pc, ts, cond, fires, hits, outcome>>
 
-EffCount  == IF cfg.ck = "int" THEN cfg.cv ELSE 1
-EffPeriod == IF cfg.pk = "int" THEN cfg.pv ELSE DefaultPeriod
+EffCount  == IF cfg.ck \in {"int", "num"} THEN cfg.cv ELSE 1      \* "num": given as a number (a tracepoint registered in code)
+EffPeriod == IF cfg.pk \in {"int", "num"} THEN cfg.pv ELSE DefaultPeriod
 WinStart == cfg.ws
 WinEnd == cfg.we
 
